@@ -31,6 +31,7 @@ def evName : Event → String
   | .xnew i => s!"xnew c{i}"
   | .xinit i => s!"xinit c{i}"
   | .xclose i d => s!"xclose c{i} {if d then "d" else "n"}"
+  | .xdrop i => s!"xdrop c{i}"
 
 def connTok (w : World) (i : Nat) (c : Conn) : String :=
   if w.list.contains i && !w.cleaned then
@@ -130,13 +131,14 @@ def defects (s : DState) : String :=
     (if w.wsLostHs > 0 then ["ws-multi-get-leak"] else []) ++
     (if w.stray > 0 then ["ft-fd-leak"] else []) ++
     (if w.extLost > 0 then ["extension-node-leak"] else []) ++
-    (if w.extDataLost > 0 then ["cleanup-extension-close-skipped"] else [])
+    (if w.extDataLost > 0 then ["cleanup-extension-close-skipped"] else []) ++
+    (if w.extNodeLost > 0 then ["disable-extension-node-leak"] else [])
   if ds.isEmpty then "-" else ",".intercalate ds
 
 def endLine (s : DState) : String :=
   let w := s.w
   let openleft := w.conns.countP (fun c => c.closeCalls == 0)
-  let leaks := if w.nbLost + w.recLost + w.wsLostHs + w.wsLostGone + w.extLost + w.extDataLost > 0 then 1 else 0
+  let leaks := if w.nbLost + w.recLost + w.wsLostHs + w.wsLostGone + w.extLost + w.extDataLost + w.extNodeLost > 0 then 1 else 0
   s!"end openleft={openleft} stray={strayShown w} leaks={leaks} defects={defects s}"
 
 def sendOp (s : DState) (c : String) (m : Msg) (xs : Ann) (rs : ResAnn) : DState × List String :=
@@ -150,9 +152,9 @@ def sendOp (s : DState) (c : String) (m : Msg) (xs : Ann) (rs : ResAnn) : DState
 def dstep (s : DState) (toks0 : List String) : DState × List String :=
   let (xs, rs, toks) := parseAnn toks0
   match toks with
-  | ["variant", a, b, c, d, e, f, g] =>
+  | ["variant", a, b, c, d, e, f, g, h] =>
     let t (x : String) := x == "1"
-    ({ s with v := ⟨t a, t b, t c, t d, t e, t f, t g⟩ }, ["ok"])
+    ({ s with v := ⟨t a, t b, t c, t d, t e, t f, t g, t h⟩ }, ["ok"])
   | ["end"] => (s, [endLine s])
   | _ =>
   if s.w.cleaned then (s, ["bad-op"]) else
@@ -170,7 +172,7 @@ def dstep (s : DState) (toks0 : List String) : DState × List String :=
     | none => (s, ["bad-op"])
   | ["pump"] => fin s (step s.v s.w (.pump xs rs))
   | ["draw", _] => fin s (step s.v s.w (.pump xs rs))
-  | ["ext"] => fin s (step s.v s.w .ext)
+  | ["ext"] | ["ext", _] => fin s (step s.v s.w .ext)
   | ["pw"] => fin s (step s.v s.w .pw)
   | ["cursor"] | ["shutdown0"] => fin s s.w
   | ["auth", c, r] => sendOp s c (.auth (r == "ok")) xs rs
@@ -201,6 +203,16 @@ def dstep (s : DState) (toks0 : List String) : DState × List String :=
       if !exists? s i || !appKnows s.w i then (s, ["bad-op"])
       else fin s (step s.v s.w (match toks.head? with
         | some "appclose" => .appClose i | some "start" => .start i | _ => .refuse i))
+    | none => (s, ["bad-op"])
+  | ["extrefuse", c] =>
+    match cid? c with
+    | some i => if exists? s i then fin s (step s.v s.w (.extRefuse i)) else (s, ["bad-op"])
+    | none => (s, ["bad-op"])
+  | ["extdrop", c] | ["extadd", c] =>
+    match cid? c with
+    | some i =>
+      if !exists? s i || !appKnows s.w i || !isOpen s.w i then (s, ["bad-op"])
+      else fin s (step s.v s.w (if toks.head? == some "extdrop" then .extDrop i else .extAdd i))
     | none => (s, ["bad-op"])
   | ["kbdclose", c] =>
     match cid? c with
